@@ -70,6 +70,9 @@ class JunctionTree(ClusterGraph):
         >>> G.add_edges_from([(('a', 'b', 'c'), ('a', 'b')),
         ...                   (('a', 'b', 'c'), ('a', 'c'))])
         """
+        if u == v:
+            raise ValueError(f"Self loops are not allowed in a Junction Tree: {str(u)}")
+
         if u in self.nodes() and v in self.nodes() and nx.has_path(self, u, v):
             raise ValueError(
                 f"Addition of edge between {str(u)} and {str(v)} forms a cycle breaking the properties of Junction Tree"
